@@ -561,10 +561,36 @@ func (s *clientSocket) onEvent(
 	decode parser.Decode,
 	sendAck ackSendFunc,
 ) (hasAckFunc bool) {
-	values, err := decode(handler.inputArgs...)
+	// With connection state recovery the server appends the offset of the packet to the arguments of
+	// the events it sends without an acknowledgement. The offset is decoded along with the arguments
+	// of the handler; it is not one of them, whatever the type of the handler's last parameter is.
+	types := handler.inputArgs
+	_, withOffset := s.pid()
+	withOffset = withOffset && header.ID == nil
+	if withOffset {
+		types = make([]reflect.Type, 0, len(handler.inputArgs)+1)
+		types = append(types, handler.inputArgs...)
+		types = append(types, reflect.TypeOf(""))
+	}
+
+	values, err := decode(types...)
 	if err != nil {
 		s.onError(wrapInternalError(err))
 		return
+	}
+
+	if withOffset && len(values) == len(handler.inputArgs)+1 {
+		offset := values[len(values)-1]
+		if offset.Kind() == reflect.Ptr {
+			offset = offset.Elem()
+		}
+		// Set the lastOffset before calling the handler.
+		// An error can occur when the handler gets called,
+		// and we can miss setting the lastOffset.
+		if offset.Kind() == reflect.String && offset.String() != "" {
+			s.setLastOffset(offset.String())
+		}
+		values = values[:len(values)-1]
 	}
 
 	if len(values) == len(handler.inputArgs) {
@@ -601,15 +627,6 @@ func (s *clientSocket) callEvent(
 	values []reflect.Value,
 	sendAck ackSendFunc,
 ) (hasAckFunc bool) {
-	// Set the lastOffset before calling the handler.
-	// An error can occur when the handler gets called,
-	// and we can miss setting the lastOffset.
-	_, ok := s.pid()
-	if ok && len(values) > 0 && values[len(values)-1].Kind() == reflect.String {
-		s.setLastOffset(values[len(values)-1].String())
-		values = values[:len(values)-1] // Remove offset
-	}
-
 	ack, _ := handler.ack()
 	if header.ID != nil && ack {
 		hasAckFunc = true
